@@ -20,7 +20,9 @@ CHECKS = {
               "MemoryStorageBackend, and every recorded event is validated by TLC against DictMon (TraceDict). Custom metadata is "
               "modelled and driven in both storage forms (metadata store / next to the result object); the open finding on the "
               "second form is the constant KF_MetaByObject of the spec (counterexample configuration) and a signature in "
-              "known_findings.json."),
+              "known_findings.json. The repository's own test suite is a further source of executions: a pytest plugin "
+              "(external wrappers, no source hooks) records every outermost backend call the 319 tests make, one trace per store, "
+              "and TLC validates them against SuiteMon (dictionary clauses; TraceSuite)."),
         ref="DESIGN.md 5/C05",
         technique="TLA+ mechanism spec refined against a labelled dictionary monitor (TLC) + TLC trace validation of replayed/random real executions"),
     "C06": dict(
@@ -46,7 +48,8 @@ CHECKS = {
               "by configuration, by argument over a configuration that says read-write; +-cache, +-separate metadata; "
               "metadata writes in both forms) and null storage is driven with random histories; per event "
               "the mutating audit events under the storage paths and the tree digest are logged and TLC validates "
-              "against RoMon (TraceRo)."),
+              "against RoMon (TraceRo). The backend calls the repository's own tests make on read-only and null backends are "
+              "recorded by a pytest plugin (external wrappers) and validated by TLC against SuiteMon (read-only clauses; TraceSuite)."),
         ref="DESIGN.md 5/C19",
         technique="TLA+ read-only mode + action property (TLC) + TLC trace validation with filesystem audit events"),
 }
@@ -122,7 +125,7 @@ _VER = ("Version.tla models function objects, module bindings (incl. aliases), t
         "the (name, version)-keyed store; TLC checks Coherent (C13), Fresh (C01) and Deterministic (C03) over all event sequences "
         "(redefinitions incl. defaults/refs/kind swaps, variable changes, alias rebinding, unregistered instances, queries, calls, "
         "new processes) up to the bound, and exhibits each pinned-commit deviation (KF_DefaultsNotHashed, KF_AdoptCached, "
-        "KF_AliasBlind) as a counterexample. Generated programs (harness/vprogs.py) are written as real packages and executed by "
+        "KF_AliasBlind, KF_OneRulePerKey) as a counterexample (re-run in the thorough tier). Generated programs (harness/vprogs.py) are written as real packages and executed by "
         "real interpreter processes sharing one store (program features: helpers in the package __init__, same-named static methods, "
         "factory-made helpers, lambdas, late-filled tables, once / twice wrapped references, decorated plain helpers, references in nine "
         "syntactic contexts); every run contains one directed history per kind of edit besides the random ones; ")
@@ -138,7 +141,9 @@ CHECKS["C03"] = dict(engine="version", ref="DESIGN.md 5/C03",
 CHECKS["C13"] = dict(engine="version", ref="DESIGN.md 5/C13",
     text=_VER + "in-process histories (re-executed and edited definitions in any order, variable rebinding/mutation, late definition of an "
     "undefined symbol, memento<->plain swaps, clones/partials/unregistered wrappers) with version queries interleaved; each answer is "
-    "compared with a fresh interpreter's answer for the resulting program (VersionMon).",
+    "compared with a fresh interpreter's answer for the resulting program (VersionMon). Spec -> code: behaviours of Version.tla generated by "
+    "tlc -simulate (Version_sim.cfg) are performed on real interpreter processes; the versions answered must induce the model's equalities "
+    "and calls must be served exactly when the model serves them (informational NONCONFORMANCE lines).",
     technique="TLA+ model of generation counter / version cache / did_change (TLC) + TLC trace validation against fresh-interpreter ground truth")
 CHECKS["C14"] = dict(engine="version", ref="DESIGN.md 5/C14",
     text=_VER + "ClosureMon defines reachability, direct references and first-memento frontier on the logged reference graph in TLA+; "
